@@ -14,5 +14,11 @@ fn main() {
         if a.len() > 3 { cfg.generate.mode = nitrogql_config_file::GenerateMode::StandaloneTS4_0; }
         for (_, d, _, _) in &loaded { println!("{}", pipeline::operation_dts(&s.schema, d, &cfg, "./schema.js").buffer); println!("---JS---\n{}", pipeline::operation_js(d, &cfg)); }
     }
+    if a[1] == "server" {
+        let texts = vec![std::fs::read_to_string(&a[2]).unwrap()];
+        let parsed = pipeline::parse_schema_files(&texts).map_err(|f| format!("{:?}", f.diags)).unwrap();
+        let doc = pipeline::resolve_and_check_schema(parsed).map_err(|f| format!("{:?}", f.diags)).unwrap();
+        println!("{}", pipeline::server_graphql(&doc));
+    }
     let _ = gen_sem::SEM_SCHEMA;
 }
